@@ -1,79 +1,143 @@
-(* C02 (growth round) -- the node operations of details/TreeNode.h that WRITE the bytes the B-tree invariant depends on
-   (mCounter.count, mCounter.indexes[], mMemPoolIndex), translated by cxx2coq from both layouts (Gen_NodeOpsI: indexed,
-   Gen_NodeOpsC: continuous).  The item / child-pointer moves inside them (std::copy, std::copy_backward, ShiftNothrow,
-   the item remover) are calls the translator skips ("skip_calls"); they are covered by the hand model (IndexTable.v,
-   BTreeModel.v) and by the node-level byte correspondence.  What is proved here about the REAL code:
-   - count + 1 / count - 1 exactly (no uint8 wrap), the asserts are exactly `count < capacity /\ index <= count` / `index < count`;
-   - FRAME: mMemPoolIndex is not written (it is not among the outputs), hence IsLeaf and GetCapacity are unchanged;
-   - pvInitIndexes writes the identity table on [0, maxCapacity) and nothing else;
-   - the scalar table steps around the skipped shift (`realIndex = indexes[count]; indexes[index] = realIndex` and
-     `realIndex = indexes[index]; indexes[count-1] = realIndex`) agree with the hand model of the table;
-   - same code: the continuous and the indexed instantiation compute the same count / the same Stuck condition. *)
+(* C02 (growth rounds) -- the node operations of details/TreeNode.h that WRITE the bytes the B-tree invariant depends on
+   (mCounter.count, mCounter.indexes[], the item array, the child array, mMemPoolIndex), translated by cxx2coq from both layouts
+   (Gen_NodeOpsI: indexed, Gen_NodeOpsC: continuous), now INCLUDING the std::copy / std::copy_backward range copies on the
+   index table and on the child array (function update on a range) and, for the continuous layout, ItemTraits::ShiftNothrow
+   on the item array (an ASSUMED primitive: its semantics is stated in the generated comment; proving it belongs to C03).
+   Only the item remover / item creator functors remain skipped.  Proved about the REAL code:
+   - Stuck exactly when an assert fails; count + 1 / count - 1 without uint8 wrap;
+   - the WHOLE new index table / item array / child array, as closed formulas (shift_ins / shift_del / ch_ins / ch_del);
+   - FRAME: mMemPoolIndex is never written; a leaf's child array is never written; entries outside the shifted range keep
+     their value;
+   - the indexed table and the continuous item array undergo the SAME permutation (same code across layouts);
+   - the generated table equals the hand model of the table (IndexTable.v) entry by entry, so every theorem of IndexTable.v
+     (permutation kept, logical sequence = insert_at / remove_at, all node histories) is a theorem about the generated code;
+   - pvInitIndexes writes the identity table on [0, maxCapacity) and nothing else. *)
 From Coq Require Import ZArith Bool List Lia.
 From MomoCommon Require Import GenPrelude.
 From C02 Require Import Gen_NodeOpsI Gen_NodeOpsC BTreeModel IndexTable.
 Local Open Scope Z_scope.
 
-Section NodeOps.
-Variables (leafPools maxCap step : Z).
-Notation capI := (Gen_NodeOpsI.GetCapacity leafPools maxCap step).
-Notation capC := (Gen_NodeOpsC.GetCapacity leafPools maxCap step).
-Notation acceptI := (Gen_NodeOpsI.AcceptBackItem leafPools maxCap step).
-Notation acceptC := (Gen_NodeOpsC.AcceptBackItem leafPools maxCap step).
-Notation removeI := Gen_NodeOpsI.Remove.
-Notation removeC := Gen_NodeOpsC.Remove.
+(* closed forms *)
+Definition shift_ins (t : Z -> Z) (index cnt : Z) : Z -> Z :=
+  fun j => if j =? index then t cnt else if andb (index <? j) (j <=? cnt) then t (j - 1) else t j.
+Definition shift_del (t : Z -> Z) (index cnt : Z) : Z -> Z :=
+  fun j => if j =? cnt - 1 then t index else if andb (index <=? j) (j <? cnt - 1) then t (j + 1) else t j.
+Definition ch_ins (ch : Z -> Z) (index cnt : Z) : Z -> Z :=
+  fun j => if andb (index + 1 <? j) (j <=? cnt + 1) then ch (j - 1) else ch j.     (* child index+1 is duplicated, the caller sets it *)
+Definition ch_del (ch : Z -> Z) (index cnt : Z) : Z -> Z :=
+  fun j => if andb (index <=? j) (j <? cnt) then ch (j + 1) else ch j.             (* child index disappears *)
+
+Ltac zb :=
+  repeat match goal with
+         | |- context [Z.eqb ?a ?b] => destruct (Z.eqb_spec a b)
+         | |- context [Z.leb ?a ?b] => destruct (Z.leb_spec a b)
+         | |- context [Z.ltb ?a ?b] => destruct (Z.ltb_spec a b)
+         end; cbn [andb negb]; try lia; try reflexivity; try (f_equal; lia).
 
 Lemma w8 x : 0 <= x < 256 -> wrapU 8 x = x.
 Proof. intros. apply wrapU_small. change (2 ^ 8) with 256. lia. Qed.
+Lemma w64 x : 0 <= x < 1000 -> wrapU 64 x = x.
+Proof. intros. apply wrapU_small. change (2 ^ 64) with 18446744073709551616. lia. Qed.
 
-(* --- AcceptBackItem: count + 1, table written at `index` only (besides the skipped shift), memPoolIndex untouched --- *)
-Theorem acceptI_spec mpi cnt t index ch :
-  0 <= cnt -> capI mpi cnt t <= 255 ->
-  acceptI mpi cnt t index ch =
-    if andb (cnt <? capI mpi cnt t) (index <=? cnt) then Ok (tt, cnt + 1, upd t index (t cnt)) else Stuck.
+Section NodeOps.
+Variables (leafPools maxCap step : Z).
+Notation capI := (Gen_NodeOpsI.GetCapacity leafPools maxCap step).
+Notation leafI := (Gen_NodeOpsI.IsLeaf leafPools).
+Notation acceptI := (Gen_NodeOpsI.AcceptBackItem leafPools maxCap step).
+Notation acceptC := (Gen_NodeOpsC.AcceptBackItem leafPools maxCap step).
+Notation removeI := (Gen_NodeOpsI.Remove leafPools).
+Notation removeC := (Gen_NodeOpsC.Remove leafPools).
+
+(* ---------- indexed layout ---------- *)
+Theorem acceptI_stuck mpi cnt t ch index :
+  acceptI mpi cnt t ch index = Stuck <-> ~ (cnt < capI mpi cnt t ch /\ index <= cnt).
 Proof.
-  intros H0 Hc. unfold Gen_NodeOpsI.AcceptBackItem, Gen_NodeOpsI.GetCount, Gen_NodeOpsI.pvAcceptBackItem.
-  destruct (cnt <? _) eqn:E1; [|reflexivity]. destruct (index <=? cnt) eqn:E2; [|reflexivity]. cbn [andb].
-  apply Z.ltb_lt in E1. rewrite w8 by lia. reflexivity.
+  unfold Gen_NodeOpsI.AcceptBackItem, Gen_NodeOpsI.GetCount.
+  destruct (Z.ltb_spec cnt (capI mpi cnt t ch)) as [A|A]; destruct (Z.leb_spec index cnt) as [B|B]; split; intros G; try lia; try discriminate; try reflexivity.
 Qed.
 
-Theorem removeI_spec mpi cnt t index ch :
-  0 <= index -> cnt <= 255 ->
-  removeI mpi cnt t index ch =
-    if index <? cnt then Ok (tt, cnt - 1, upd t (cnt - 1) (t index)) else Stuck.
+Theorem acceptI_spec mpi cnt t ch index :
+  0 <= index <= cnt -> cnt < capI mpi cnt t ch -> capI mpi cnt t ch <= 255 ->
+  exists T C, acceptI mpi cnt t ch index = Ok (tt, cnt + 1, T, C) /\
+    (forall j, T j = shift_ins t index cnt j) /\
+    (forall j, C j = if leafI mpi cnt t ch then ch j else ch_ins ch index cnt j).
 Proof.
-  intros H0 Hc. unfold Gen_NodeOpsI.Remove, Gen_NodeOpsI.GetCount, Gen_NodeOpsI.pvRemove.
-  destruct (index <? cnt) eqn:E1; [|reflexivity]. apply Z.ltb_lt in E1.
-  rewrite w8 by lia. rewrite (wrapU_small 64) by (split; [lia|]; change (2 ^ 64) with 18446744073709551616; lia). reflexivity.
+  intros Hi Hc H255. unfold Gen_NodeOpsI.AcceptBackItem, Gen_NodeOpsI.GetCount, Gen_NodeOpsI.pvAcceptBackItem.
+  replace (cnt <? capI mpi cnt t ch) with true by (symmetry; apply Z.ltb_lt; lia).
+  replace (index <=? cnt) with true by (symmetry; apply Z.leb_le; lia).
+  rewrite w8 by lia. eexists. eexists. split; [reflexivity|]. split; intros j.
+  - unfold shift_ins, upd. zb.
+  - change (Gen_NodeOpsI.IsLeaf leafPools mpi cnt ?a ch) with (leafI mpi cnt t ch).
+    destruct (leafI mpi cnt t ch); cbn [negb]; [reflexivity|]. unfold ch_ins. zb.
 Qed.
 
-(* FRAME: the capacity / leaf flag of the node (functions of mMemPoolIndex only) cannot change: they do not depend on what the
-   operations return *)
-Theorem capacity_frame mpi cnt t cnt' t' : capI mpi cnt t = capI mpi cnt' t' /\
-  Gen_NodeOpsI.IsLeaf leafPools mpi cnt t = Gen_NodeOpsI.IsLeaf leafPools mpi cnt' t'.
+Theorem removeI_stuck mpi cnt t ch index : removeI mpi cnt t ch index = Stuck <-> ~ index < cnt.
+Proof.
+  unfold Gen_NodeOpsI.Remove, Gen_NodeOpsI.GetCount. destruct (Z.ltb_spec index cnt) as [A|A]; split; intros G; try lia; try discriminate; reflexivity.
+Qed.
+
+Theorem removeI_spec mpi cnt t ch index :
+  0 <= index < cnt -> cnt <= 255 ->
+  exists T C, removeI mpi cnt t ch index = Ok (tt, cnt - 1, T, C) /\
+    (forall j, T j = shift_del t index cnt j) /\
+    (forall j, C j = if leafI mpi cnt t ch then ch j else ch_del ch index cnt j).
+Proof.
+  intros Hi H255. unfold Gen_NodeOpsI.Remove, Gen_NodeOpsI.GetCount, Gen_NodeOpsI.pvRemove.
+  replace (index <? cnt) with true by (symmetry; apply Z.ltb_lt; lia).
+  rewrite w8 by lia. rewrite w64 by lia. eexists. eexists. split; [reflexivity|]. split; intros j.
+  - unfold shift_del, upd. zb.
+  - change (Gen_NodeOpsI.IsLeaf leafPools mpi cnt ?a ch) with (leafI mpi cnt t ch).
+    destruct (leafI mpi cnt t ch); cbn [negb]; [reflexivity|]. unfold ch_del. zb.
+Qed.
+
+(* FRAME: capacity and leaf flag are functions of mMemPoolIndex, which no node operation returns as written *)
+Theorem capacity_frame mpi cnt t ch cnt' t' ch' : capI mpi cnt t ch = capI mpi cnt' t' ch' /\ leafI mpi cnt t ch = leafI mpi cnt' t' ch'.
 Proof. split; reflexivity. Qed.
 
-(* --- same code: both layouts agree on the count byte and on the assert --- *)
-Theorem same_code_capacity mpi cnt t : capC mpi cnt = capI mpi cnt t.
-Proof. reflexivity. Qed.
-
-Theorem same_code_accept mpi cnt t index ch :
-  acceptC mpi cnt index ch = match acceptI mpi cnt t index ch with
-                             | Ok (_, c, _) => Ok (tt, c) | Stuck => Stuck | Fuel => Fuel | Exn => Exn end.
+(* ---------- continuous layout: the item array undergoes the permutation the indexed table undergoes ---------- *)
+Theorem acceptC_spec mpi cnt ch items index :
+  0 <= index <= cnt -> cnt < capI mpi cnt items ch -> capI mpi cnt items ch <= 255 ->
+  exists C I, acceptC mpi cnt ch items index = Ok (tt, cnt + 1, C, I) /\
+    (forall j, I j = shift_ins items index cnt j) /\
+    (forall j, C j = if leafI mpi cnt items ch then ch j else ch_ins ch index cnt j).
 Proof.
-  unfold Gen_NodeOpsC.AcceptBackItem, Gen_NodeOpsI.AcceptBackItem, Gen_NodeOpsC.GetCount, Gen_NodeOpsI.GetCount.
-  rewrite same_code_capacity with (t := t). destruct (cnt <? _); [|reflexivity]. destruct (index <=? cnt); reflexivity.
+  intros Hi Hc H255. unfold Gen_NodeOpsC.AcceptBackItem, Gen_NodeOpsC.GetCount, Gen_NodeOpsC.pvAcceptBackItem.
+  change (Gen_NodeOpsC.GetCapacity leafPools maxCap step mpi cnt ch items) with (capI mpi cnt items ch).
+  replace (cnt <? capI mpi cnt items ch) with true by (symmetry; apply Z.ltb_lt; lia).
+  replace (index <=? cnt) with true by (symmetry; apply Z.leb_le; lia).
+  rewrite w8 by lia. rewrite !w64 by lia. eexists. eexists. split; [reflexivity|]. split; intros j.
+  - unfold shift_ins. zb.
+  - change (Gen_NodeOpsC.IsLeaf leafPools mpi cnt ch ?a) with (leafI mpi cnt items ch).
+    destruct (leafI mpi cnt items ch); cbn [negb]; [reflexivity|]. unfold ch_ins. zb.
 Qed.
 
-Theorem same_code_remove mpi cnt t index ch :
-  removeC mpi cnt index ch = match removeI mpi cnt t index ch with
-                             | Ok (_, c, _) => Ok (tt, c) | Stuck => Stuck | Fuel => Fuel | Exn => Exn end.
+Theorem removeC_spec mpi cnt ch items index :
+  0 <= index < cnt -> cnt <= 255 ->
+  exists C I, removeC mpi cnt ch items index = Ok (tt, cnt - 1, C, I) /\
+    (forall j, I j = shift_del items index cnt j) /\
+    (forall j, C j = if leafI mpi cnt items ch then ch j else ch_del ch index cnt j).
 Proof.
-  unfold Gen_NodeOpsC.Remove, Gen_NodeOpsI.Remove, Gen_NodeOpsC.GetCount, Gen_NodeOpsI.GetCount.
-  destruct (index <? cnt); reflexivity.
+  intros Hi H255. unfold Gen_NodeOpsC.Remove, Gen_NodeOpsC.GetCount, Gen_NodeOpsC.pvRemove.
+  replace (index <? cnt) with true by (symmetry; apply Z.ltb_lt; lia).
+  rewrite w8 by lia. rewrite (w64 (cnt - index)) by lia. rewrite w64 by lia. eexists. eexists. split; [reflexivity|]. split; intros j.
+  - unfold shift_del. zb.
+  - change (Gen_NodeOpsC.IsLeaf leafPools mpi cnt ch ?a) with (leafI mpi cnt items ch).
+    destruct (leafI mpi cnt items ch); cbn [negb]; [reflexivity|]. unfold ch_del. zb.
 Qed.
 
-(* --- pvInitIndexes: identity on [0, maxCapacity), nothing else --- *)
+Theorem same_code_stuck mpi cnt t ch items index :
+  (acceptC mpi cnt ch items index = Stuck <-> acceptI mpi cnt t ch index = Stuck) /\
+  (removeC mpi cnt ch items index = Stuck <-> removeI mpi cnt t ch index = Stuck).
+Proof.
+  split.
+  - unfold Gen_NodeOpsC.AcceptBackItem, Gen_NodeOpsI.AcceptBackItem, Gen_NodeOpsC.GetCount, Gen_NodeOpsI.GetCount.
+    change (Gen_NodeOpsC.GetCapacity leafPools maxCap step mpi cnt ch items) with (capI mpi cnt t ch).
+    destruct (cnt <? capI mpi cnt t ch); [|tauto]. destruct (index <=? cnt); [|tauto]. split; discriminate.
+  - unfold Gen_NodeOpsC.Remove, Gen_NodeOpsI.Remove, Gen_NodeOpsC.GetCount, Gen_NodeOpsI.GetCount, Gen_NodeOpsC.pvRemove.
+    destruct (index <? cnt); [|tauto]. split; discriminate.
+Qed.
+
+(* ---------- pvInitIndexes: identity on [0, maxCapacity), nothing else ---------- *)
 Lemma init_loop fuel i t :
   0 <= i <= maxCap -> maxCap <= 255 -> (Z.to_nat (maxCap - i) < fuel)%nat ->
   exists t', Gen_NodeOpsI.pvInitIndexes_loop0 maxCap fuel i t = Ok (maxCap, t') /\
@@ -81,62 +145,67 @@ Lemma init_loop fuel i t :
 Proof.
   revert i t. induction fuel as [|fuel IH]; intros i t Hi Hm Hf; [lia|].
   rewrite Gen_NodeOpsI.pvInitIndexes_loop0_eq. destruct (i <? maxCap) eqn:E.
-  - apply Z.ltb_lt in E. cbv zeta.
-    rewrite (wrapU_small 64) by (split; [lia|]; change (2 ^ 64) with 18446744073709551616; lia).
-    rewrite w8 by lia.
+  - apply Z.ltb_lt in E. cbv zeta. rewrite w64 by lia. rewrite w8 by lia.
     destruct (IH (i + 1) (upd t i i)) as (t' & E1 & E2); [lia|lia|lia|].
-    exists t'. split; [exact E1|]. intros j. rewrite E2.
-    destruct (Z.eq_dec j i) as [->|N].
-    + replace (i + 1 <=? i) with false by (symmetry; apply Z.leb_gt; lia). cbn [andb]. rewrite upd_same.
-      replace (i <=? i) with true by (symmetry; apply Z.leb_le; lia). replace (i <? maxCap) with true by (symmetry; apply Z.ltb_lt; lia). reflexivity.
-    + rewrite upd_other by exact N.
-      destruct (i + 1 <=? j) eqn:A; destruct (i <=? j) eqn:B; try reflexivity.
-      * apply Z.leb_le in A. apply Z.leb_gt in B. lia.
-      * apply Z.leb_gt in A. apply Z.leb_le in B. lia.
-  - apply Z.ltb_ge in E. assert (i = maxCap) by lia. subst i. exists t. split; [reflexivity|].
-    intros j. destruct (maxCap <=? j) eqn:A; destruct (j <? maxCap) eqn:B; try reflexivity.
-    apply Z.leb_le in A. apply Z.ltb_lt in B. lia.
+    exists t'. split; [exact E1|]. intros j. rewrite E2. unfold upd. zb.
+  - apply Z.ltb_ge in E. assert (i = maxCap) by lia. subst i. exists t. split; [reflexivity|]. intros j. zb.
 Qed.
 
-Theorem init_indexes_identity mpi cnt t :
+Theorem init_indexes_identity mpi cnt t ch :
   0 <= maxCap <= 255 ->
-  exists t', Gen_NodeOpsI.pvInitIndexes maxCap mpi cnt t = Ok (tt, t') /\
+  exists t', Gen_NodeOpsI.pvInitIndexes maxCap mpi cnt t ch = Ok (tt, t') /\
     (forall j, 0 <= j < maxCap -> t' j = j) /\ (forall j, ~ (0 <= j < maxCap) -> t' j = t j).
 Proof.
   intros H. unfold Gen_NodeOpsI.pvInitIndexes.
   destruct (init_loop Gen_NodeOpsI.fuel_of_pvInitIndexes 0 t) as (t' & E1 & E2); [lia|lia| |].
   { unfold Gen_NodeOpsI.fuel_of_pvInitIndexes. rewrite Z.sub_0_r. apply Z2Nat.inj_lt; lia. }
-  rewrite E1. exists t'. split; [reflexivity|]. split; intros j Hj; rewrite E2.
-  - replace (0 <=? j) with true by (symmetry; apply Z.leb_le; lia). replace (j <? maxCap) with true by (symmetry; apply Z.ltb_lt; lia). reflexivity.
-  - destruct (0 <=? j) eqn:A; destruct (j <? maxCap) eqn:B; try reflexivity. apply Z.leb_le in A. apply Z.ltb_lt in B. lia.
+  rewrite E1. exists t'. split; [reflexivity|]. split; intros j Hj; rewrite E2; zb.
 Qed.
 
 End NodeOps.
 
-(* --- the generated scalar table steps agree with the hand model of the table (IndexTable.v) --- *)
+(* ---------- the generated table IS the hand model of the table (IndexTable.v), entry by entry ---------- *)
 Definition tbl (l : list nat) : Z -> Z := fun j => Z.of_nat (nth (Z.to_nat j) l 0%nat).
 
-Theorem accept_written_slot_agrees (n : inode) index :
-  (index <= icount n)%nat -> (icount n < length (idx n))%nat ->
-  tbl (idx (accept_back n index)) (Z.of_nat index) =
-  Gen_NodeOpsI.pvAcceptBackItem 0 0 (tbl (idx n)) (Z.of_nat index) (Z.of_nat (icount n)) (Z.of_nat index).
+Lemma nth_firstn_lt {A} i n (l : list A) d : (i < n)%nat -> nth i (firstn n l) d = nth i l d.
+Proof. revert i l. induction n; intros i l H; [lia|]. destruct l; [destruct i; reflexivity|]. destruct i; [reflexivity|]. cbn [firstn nth]. apply IHn. lia. Qed.
+Lemma nth_skipn_add {A} i n (l : list A) d : nth i (skipn n l) d = nth (n + i) l d.
+Proof. revert l. induction n; intros l; [reflexivity|]. destruct l; [destruct i; reflexivity|]. cbn [skipn]. rewrite IHn. reflexivity. Qed.
+
+Theorem hand_accept_table_is_generated (n : inode) index j :
+  (index <= icount n)%nat -> (icount n < length (idx n))%nat -> (j < length (idx n))%nat ->
+  tbl (idx (accept_back n index)) (Z.of_nat j) = shift_ins (tbl (idx n)) (Z.of_nat index) (Z.of_nat (icount n)) (Z.of_nat j).
 Proof.
-  intros Hi Hc. unfold Gen_NodeOpsI.pvAcceptBackItem, tbl, accept_back. cbn [idx]. rewrite upd_same, !Nat2Z.id.
-  assert (L : length (firstn index (idx n)) = index) by (apply firstn_length_le; lia).
-  rewrite app_nth2 by lia. rewrite L, Nat.sub_diag. reflexivity.
+  intros Hi Hc Hj. unfold shift_ins, tbl, accept_back. cbn [idx]. rewrite !Nat2Z.id. set (c := icount n) in *. set (l := idx n) in *.
+  assert (LA : length (firstn index l) = index) by (apply firstn_length_le; lia).
+  assert (LB : length (firstn (c - index) (skipn index l)) = (c - index)%nat) by (apply firstn_length_le; rewrite skipn_length; lia).
+  destruct (Z.eqb_spec (Z.of_nat j) (Z.of_nat index)) as [E|E].
+  - assert (j = index) by lia. subst j. rewrite app_nth2 by lia. rewrite LA, Nat.sub_diag. reflexivity.
+  - destruct (Z.ltb_spec (Z.of_nat index) (Z.of_nat j)); destruct (Z.leb_spec (Z.of_nat j) (Z.of_nat c)); cbn [andb].
+    + rewrite app_nth2 by lia. rewrite LA. destruct (j - index)%nat as [|m] eqn:Em; [lia|]. cbn [nth].
+      rewrite app_nth1 by lia. rewrite nth_firstn_lt by lia. rewrite nth_skipn_add.
+      replace (Z.to_nat (Z.of_nat j - 1)) with (index + m)%nat by lia. reflexivity.
+    + rewrite app_nth2 by lia. rewrite LA. destruct (j - index)%nat as [|m] eqn:Em; [lia|]. cbn [nth].
+      rewrite app_nth2 by lia. rewrite LB, nth_skipn_add. f_equal. f_equal. lia.
+    + rewrite app_nth1 by lia. rewrite nth_firstn_lt by lia. reflexivity.
+    + lia.
 Qed.
 
-Theorem remove_written_slot_agrees (n : inode) index :
-  (index < icount n)%nat -> (icount n <= length (idx n))%nat -> (icount n <= 255)%nat ->
-  tbl (idx (remove_idx n index)) (Z.of_nat (icount n) - 1) =
-  Gen_NodeOpsI.pvRemove 0 0 (tbl (idx n)) (Z.of_nat index) (Z.of_nat (icount n)) (Z.of_nat (icount n) - 1).
+Theorem hand_remove_table_is_generated (n : inode) index j :
+  (index < icount n)%nat -> (icount n <= length (idx n))%nat -> (j < length (idx n))%nat ->
+  tbl (idx (remove_idx n index)) (Z.of_nat j) = shift_del (tbl (idx n)) (Z.of_nat index) (Z.of_nat (icount n)) (Z.of_nat j).
 Proof.
-  intros Hi Hc H255. unfold Gen_NodeOpsI.pvRemove, tbl, remove_idx. cbn [idx].
-  rewrite (wrapU_small 64) by (split; [lia|]; change (2 ^ 64) with 18446744073709551616; lia).
-  rewrite upd_same, Nat2Z.id. replace (Z.to_nat (Z.of_nat (icount n) - 1)) with (icount n - 1)%nat by lia.
-  assert (L : length (firstn index (idx n)) = index) by (apply firstn_length_le; lia).
-  assert (L2 : length (firstn (icount n - index - 1) (skipn (S index) (idx n))) = (icount n - index - 1)%nat)
-    by (apply firstn_length_le; rewrite skipn_length; lia).
-  rewrite app_nth2 by lia. rewrite L. rewrite app_nth2 by lia. rewrite L2.
-  replace (icount n - 1 - index - (icount n - index - 1))%nat with 0%nat by lia. reflexivity.
+  intros Hi Hc Hj. unfold shift_del, tbl, remove_idx. cbn [idx]. rewrite !Nat2Z.id. set (c := icount n) in *. set (l := idx n) in *.
+  assert (LA : length (firstn index l) = index) by (apply firstn_length_le; lia).
+  assert (LB : length (firstn (c - index - 1) (skipn (S index) l)) = (c - index - 1)%nat) by (apply firstn_length_le; rewrite skipn_length; lia).
+  destruct (Z.eqb_spec (Z.of_nat j) (Z.of_nat c - 1)) as [E|E].
+  - assert (j = c - 1)%nat by lia. subst j. rewrite app_nth2 by lia. rewrite LA. rewrite app_nth2 by lia. rewrite LB.
+    replace (c - 1 - index - (c - index - 1))%nat with 0%nat by lia. reflexivity.
+  - destruct (Z.leb_spec (Z.of_nat index) (Z.of_nat j)); destruct (Z.ltb_spec (Z.of_nat j) (Z.of_nat c - 1)); cbn [andb].
+    + rewrite app_nth2 by lia. rewrite LA. rewrite app_nth1 by lia. rewrite nth_firstn_lt by lia. rewrite nth_skipn_add.
+      f_equal. f_equal. lia.
+    + rewrite app_nth2 by lia. rewrite LA. rewrite app_nth2 by lia. rewrite LB.
+      destruct (j - index - (c - index - 1))%nat as [|m] eqn:Em; [lia|]. cbn [nth]. rewrite nth_skipn_add. f_equal. f_equal. lia.
+    + rewrite app_nth1 by lia. rewrite nth_firstn_lt by lia. reflexivity.
+    + lia.
 Qed.
